@@ -140,7 +140,7 @@ def run(pid, tier, seed, a, t0):
     P = PROPS[pid]
     src = Source()
     generic = load_contracts(src)
-    timeout = a.timeout or (30 if tier == 'quick' else 60)
+    timeout = a.timeout or (12 if tier == 'quick' else 60)
     all_results = []
     oor_all = []
     stats_all = {'functions': 0, 'paths': 0, 'gen_s': 0.0, 'solve_s': 0.0}
